@@ -126,7 +126,7 @@ func C04(ctx *core.Ctx) {
 			"the process-wide marshaler singleton has fields: every FProtocol on every goroutine shares that state (e.g. a scratch buffer is overwritten by a concurrent reader)")
 	}
 
-	cfg := &bounds.Config{IntBits: 64, AssumeLenI32: true, Ideal: true}
+	cfg := &bounds.Config{IntBits: IntBits(), AssumeLenI32: true, Ideal: true}
 	pr := bounds.New(cfg)
 
 	// ---- S4 encoder -------------------------------------------------------------------
